@@ -140,7 +140,13 @@ static void exec_seq_huge(const J& h) {
   for (size_t i = 0; i < h.at("sizes").size() && !failed() && !g_run.foreign_seen; i++) {
     uint64_t n = h.at("sizes").iu(i); if (n > HUGE_REGION_BYTES - 16) n = HUGE_REGION_BYTES - 16; if (n < x.size()) continue;
     LoadOpts o; std::string where = fmt("item followed by zero bytes up to a buffer length of 2^32 %+lld", (long long)(n - ((uint64_t)1 << 32))); o.where = where.c_str(); o.post_ops = false;
+    // decoding x needs a known number of requests whatever follows it; a decoder that keeps eating the gigabytes behind x must run
+    // into a refusal (and then into the oracle) long before it has eaten the harness's memory
+    uint64_t lim = 4 * count_load_requests(x.data(), x.size()) + 1000;
+    sa_set_request_limit(lim);
     LoadOutcome r = checked_load(R, (size_t)n, o, nullptr);
+    sa_set_request_limit(0);
+    if (!r.item && r.ref.st == R_ITEM && r.requests >= lim) fail("C14", "decoding-depends-on-suffix", where + fmt(": the first item needs %llu allocator request(s) when decoded alone; with the gigabytes behind it the call had made %llu when the harness stopped granting them", (unsigned long long)((lim - 1000) / 4), (unsigned long long)r.requests));
     if (r.item) items++;
     stat_add("huge_buffer_loads");
   }
